@@ -36,3 +36,22 @@ Definition elem_count (e : N) (g : molg) : Z := count_el e g + (if N.eqb e EL_H 
 (** the substrate as a molecule graph (what [its_decompose] would return for it) *)
 Definition mol_of_host (host : hostg) : molg :=
   LG (map (fun p => (fst p, dec_node (snd p))) (gnodes host)) (gedges host).
+
+(** every bond of a rule joins two atoms of the rule *)
+Definition edges_closedb (rc : its) : bool :=
+  forallb (fun e => mem (fst (fst e)) (node_ids rc) && mem (snd (fst e)) (node_ids rc)) (gedges rc).
+
+(** what _explicit_h appends for its list of migrations (donor, recipient), first new atom id [h]: one explicit H
+    atom per migration, bonded (1,0) to the donor and (0,1) to the recipient *)
+Fixpoint new_edges (h : N) (ms : list (N * N)) : list (N * N * iedge) :=
+  match ms with
+  | [] => []
+  | sd :: r => (fst sd, h, (2, 0, 2)) :: (h, snd sd, (0, 2, -2)) :: new_edges (N.succ h) r
+  end.
+Fixpoint new_nodes (h : N) (ms : list (N * N)) : list (N * inode) :=
+  match ms with
+  | [] => []
+  | _ :: r => (h, H_inode) :: new_nodes (N.succ h) r
+  end.
+Definition occurrences (n : N) (l : list N) : Z := Z.of_nat (length (filter (N.eqb n) l)).
+
